@@ -401,5 +401,10 @@ pub fn catch<T>(f: impl FnOnce() -> T) -> Result<T, String> {
 
 /// silence the default panic printer (the harness catches and reports panics itself)
 pub fn quiet_panics() {
-    std::panic::set_hook(Box::new(|_| {}));
+    // keep the location of the last panic so that a harness panic can be diagnosed
+    std::panic::set_hook(Box::new(|info| {
+        if std::env::var("MC_SHOW_PANICS").is_ok() {
+            eprintln!("panic: {info}");
+        }
+    }));
 }
